@@ -114,7 +114,8 @@ func (v VLA) analyzeVLAForMarshaling() (*vlaMarshalingContext, error) {
 	if ctx.commonSLBM != 0 {
 		ctx.requiredLen = 1
 	} else {
-		ctx.requiredLen = 3
+		// one 4-bit mask per RTP stream, two per byte
+		ctx.requiredLen = 1 + (v.RTPStreamCount-1)/2 + 1
 	}
 
 	// #tl fields
